@@ -105,7 +105,12 @@ def do_sched(e, st):
             e.finish_harness(st)
         blocked = ["thread %d waits for %s" % (t.tid, t.wait) for t in st.threads if t.status == 'blocked']
         raise Violation('deadlock', "no runnable thread: " + "; ".join(blocked))
-    k = choose(e, st, len(others))
+    if st.env.get('rr') and cur.status == 'blocked' and cur.wait[0] == 'sleep':
+        # fair mode (vp_sched_fair): a voluntary yield hands over round-robin, without branching
+        nxt = [j for j in others if j > st.cur]
+        k = others.index(nxt[0]) if nxt else 0
+    else:
+        k = choose(e, st, len(others))
     st.sched = None
     switch_to(st, others[k])
 
@@ -440,11 +445,24 @@ def x_yield(e, st, fr, args, name):
     return SWITCHED
 
 
+def x_sched_point(e, st, fr, args, name):
+    if st.threads is None:
+        return None
+    if sched_point(e, st, fr): return SWITCHED
+    return None
+
+
 def x_sched_budget(e, st, fr, args, name):
     _init(st)
     v = args[0]
     if v.__class__ is not int: v = e.concretize(st, v, 8, 'budget')
     st.env['budget'] = v
+    return None
+
+
+def x_sched_fair(e, st, fr, args, name):
+    _init(st)
+    st.env['rr'] = 1 if args[0] else 0
     return None
 
 
@@ -464,4 +482,4 @@ def install(e):
     X['pthread_cond_broadcast'] = x_cond_signal; X['pthread_cond_signal'] = x_cond_signal
     X['pthread_cond_destroy'] = lambda e, st, fr, a, n: 0; X['pthread_cond_init'] = lambda e, st, fr, a, n: 0
     X['sleep'] = x_yield; X['usleep'] = x_yield; X['sched_yield'] = x_yield; X['nanosleep'] = x_yield
-    X['vp_sched_budget'] = x_sched_budget; X['vp_thread_count'] = x_thread_count
+    X['vp_sched_budget'] = x_sched_budget; X['vp_sched_point'] = x_sched_point; X['vp_sched_fair'] = x_sched_fair; X['vp_thread_count'] = x_thread_count
